@@ -303,6 +303,24 @@ def probes() -> list[tuple[str, str]]:
                 ("long dictionary", '"test.op"() {' + ", ".join(f"k{i} = {i}" for i in range(n // 10)) + "} : () -> ()"),
                 ("many operations", "\n".join(f'%{i} = "test.op"() : () -> i32' for i in range(n // 30))),
                 ("many operands", '%0 = "test.op"() : () -> i32\n"test.op"(' + ", ".join(["%0"] * (n // 4)) + ") : (" + ", ".join(["i32"] * (n // 4)) + ") -> ()"),
+                ("long percent identifier", '%' + "v" * n + ' = "test.op"() : () -> i32'),
+                ("long caret identifier", '"test.op"() ({\n^' + "b" * n + ':\n  "test.termop"() : () -> ()\n}) : () -> ()'),
+                ("long type alias use", '"test.op"() : () -> !' + "t" * n),
+                ("long attribute alias use", '"test.op"() {a = #' + "a" * n + '} : () -> ()'),
+                ("long symbol", '"test.op"() {a = @' + "s" * n + '} : () -> ()'),
+                ("long nested symbol", '"test.op"() {a = @a' + "::@b" * (n // 4) + '} : () -> ()'),
+                ("long properties", '"test.op"() <{' + ", ".join(f"p{i} = {i} : i32" for i in range(n // 14)) + '}> : () -> ()'),
+                ("long fused location", '"test.op"() : () -> () loc(fused[' + ", ".join(['"f":1:2'] * (n // 9)) + '])'),
+                ("nested callsite location", '"test.op"() : () -> () loc(' + 'callsite("f":1:2 at ' * min(n // 20, 300) + 'unknown' + ')' * min(n // 20, 300) + ')'),
+                ("metadata section", '"builtin.module"() ({}) : () -> ()\n{-#\n  dialect_resources: {\n    builtin: {\n' + ",\n".join(f'      r{i}: "0x08000000{i:08X}"' for i in range(n // 30)) + '\n    }\n  }\n#-}'),
+                ("many block arguments", '"test.op"() ({\n^bb0(' + ", ".join(f"%a{i} : i32" for i in range(n // 12)) + '):\n  "test.termop"() : () -> ()\n}) : () -> ()'),
+                ("many successors", '"test.op"() ({\n  "test.termop"()[' + ", ".join(["^b"] * (n // 4)) + '] : () -> ()\n^b:\n  "test.termop"() : () -> ()\n}) : () -> ()'),
+                ("many forward references", '"test.op"() ({\n  "test.op"(' + ", ".join(f"%f{i}" for i in range(n // 8)) + ') : (' + ", ".join(["i32"] * (n // 8)) + ') -> ()\n  '
+                 + "\n  ".join(f'%f{i} = "test.op"() : () -> i32' for i in range(n // 8)) + '\n}) : () -> ()'),
+                ("many results", ", ".join(f"%r{i}" for i in range(n // 6)) + ' = "test.op"() : () -> (' + ", ".join(["i32"] * (n // 6)) + ')'),
+                ("result group", f'%r:{n // 4} = "test.op"() : () -> (' + ", ".join(["i32"] * (n // 4)) + ')\n"test.op"(%r#{n // 4 - 1}) : (i32) -> ()'),
+                ("long string attribute", '"test.op"() {a = "' + "x" * n + '"} : () -> ()'),
+                ("affine map sum of dims", '"test.op"() {a = affine_map<(' + ", ".join(f"d{i}" for i in range(min(n // 10, 400))) + ') -> (' + " + ".join(f"d{i}" for i in range(min(n // 10, 400))) + ')>} : () -> ()'),
                 ("hash soup", "#" * n), ("percent soup", "%" * n), ("dots", "." * n), ("minus arrows", "->" * (n // 2)), ("at signs", "@" * n),
                 ("backslashes in string", '"' + "\\\\" * (n // 2) + '"'),
                 ("string of hex escapes", '"test.op"() {a = "' + "\\FF" * (n // 3) + '"} : () -> ()'),
